@@ -680,12 +680,17 @@ Section Handlers.
                      else ext_provide s r false)
     end.
 
+  (* the length check of rfbProcessClientNormalMessage: the compressed message of the extended format may be
+     slightly larger than the 1 MB its inflated records are limited to (59a8ab5); the classic form keeps 1 MB *)
+  Definition cut_refused (ext : bool) (len : Z) : bool :=
+    if ext && (len <=? c04_ext_cut_msg_limit) then false else len >? c04_cut_text_limit.
+
   Definition h_ClientCutText (s : cstate) : prog cstate :=
     rd_msg c04_sz_ClientCutText s (fun m =>
       let len0 := be (sub m 3 4) in
       let ext := s_extclip s && (2147483648 <=? len0) in
       let len := if ext then u32 (- len0) else len0 in
-      if len >? c04_cut_text_limit then closeP s
+      if cut_refused ext len then closeP s
       else
         Em (Alloc (if len =? 0 then 1 else len))
         (rd len s (fun str =>
